@@ -5,13 +5,15 @@ import EmbitModel.Driver.Psbt
 import EmbitModel.Driver.Bip39
 import EmbitModel.Driver.Miniscript
 import EmbitModel.Driver.View
+import EmbitModel.Driver.SigCheck
+import EmbitModel.Driver.Sign
 /-
   Native line-protocol driver over the executable model and spec (no Mathlib reachable from here).
   One request per line `op arg…`; one answer per line: `ok …`, `none` (model rejects), or `bad-op`.
 -/
 open Embit.Driver
 
-def handlers : List (String → List String → Option String) := [handleTx, handleHash, handleSighash, handlePsbt, handleBip39, handleMiniscript, handleView]
+def handlers : List (String → List String → Option String) := [handleTx, handleHash, handleSighash, handlePsbt, handleBip39, handleMiniscript, handleView, handleSigCheck, handleSign]
 
 def dispatch (line : String) : String :=
   match (line.splitOn " ").filter (· ≠ "") with
